@@ -20,7 +20,9 @@ the list of methods that exist and their signatures):
   (flag -> what is done with the value: store as string / int(a, 0) / int(a) / the
   one-hop routing list / set True / usage+exit / version+exit) with each local variable
   named by its SINK (where main hands it to the library), so renaming a local is harmless;
-  the exception handlers around the command (exception class, text printed, exit status).
+  the exception handlers around the command (exception class, text printed, exit status);
+  the shape of that try: `<conn>.open()` inside its body before `cmd(<conn>, args)` (or directly
+  before the try), `<conn>.close()` as its only finally statement, nothing after it.
 * chassis power: for each 'chassis power <x>' entry the method's body in
   pyipmi/chassis.py must be `self.chassis_control(<CONST>)`, CONST resolved in
   pyipmi/msgs/chassis.py; `chassis_control` must build 'ChassisControl', assign
@@ -426,6 +428,55 @@ def tr_exits(main):
     return out
 
 
+def tr_shape(main):
+    """where main opens and closes the connection relative to the try around cmd(ipmi, args):
+    RunShape <ipmi.open() is inside the try body, before cmd> <ipmi.close() is in the finally>"""
+    target = None
+    for n in ast.walk(main):
+        if isinstance(n, ast.Try):
+            for st in n.body:
+                if isinstance(st, ast.Expr) and isinstance(st.value, ast.Call) and isinstance(st.value.func, ast.Name) \
+                        and st.value.func.id == 'cmd':
+                    target = n
+    if target is None:
+        return 'RunUntranslated "no try around cmd(ipmi, args)"'
+    if target not in main.body:
+        return 'RunUntranslated "the try around cmd is nested"'
+
+    def is_call(st, suffix, conn):
+        return (isinstance(st, ast.Expr) and isinstance(st.value, ast.Call) and not st.value.args and not st.value.keywords
+                and dotted(st.value.func) == conn + '.' + suffix)
+    cmd_stmt = [st for st in target.body if isinstance(st, ast.Expr) and isinstance(st.value, ast.Call)
+                and isinstance(st.value.func, ast.Name) and st.value.func.id == 'cmd'][0]
+    if not (len(cmd_stmt.value.args) == 2 and isinstance(cmd_stmt.value.args[0], ast.Name)):
+        return 'RunUntranslated "cmd is not called as cmd(<connection>, args)"'
+    conn = cmd_stmt.value.args[0].id
+    idx = target.body.index(cmd_stmt)
+    before = target.body[:idx]
+    after = target.body[idx + 1:]
+    if after or target.orelse:
+        return 'RunUntranslated "statements after cmd(...) inside the try"'
+    opens_in = [st for st in before if is_call(st, 'open', conn)]
+    if len(opens_in) != len(before):
+        return 'RunUntranslated "statement other than <connection>.open() before cmd inside the try"'
+    pos = main.body.index(target)
+    opens_out = [st for st in main.body[:pos] if is_call(st, 'open', conn)]
+    for st in main.body[:pos]:
+        for n in ast.walk(st):
+            if isinstance(n, ast.Call) and dotted(n.func) == conn + '.open' and st not in opens_out:
+                return 'RunUntranslated "connection opened inside a compound statement"'
+    if len(opens_in) + len(opens_out) != 1:
+        return 'RunUntranslated "connection is not opened exactly once before the command"'
+    if opens_out and main.body[pos - 1] is not opens_out[0]:
+        return 'RunUntranslated "statements between <connection>.open() and the try"'
+    fin = target.finalbody
+    if not (len(fin) == 1 and is_call(fin[0], 'close', conn)):
+        return 'RunUntranslated "finally is not exactly <connection>.close()"'
+    if main.body[pos + 1:]:
+        return 'RunUntranslated "statements after the try"'
+    return 'RunShape %s true' % ('true' if opens_in else 'false')
+
+
 # ----------------------------------------------------------------------------- chassis power
 def tr_power(cmd_names, repo):
     src = open(os.path.join(repo, 'pyipmi', 'chassis.py')).read()
@@ -548,9 +599,11 @@ def generate(repo):
     if main is None:
         short, longs, opts, defaults = 'None', '[]', ['mkOpt "" (AUntranslated "no main()")'], []
         exits = ['mkExit "" None false None (Some "no main()")']
+        shape = 'RunUntranslated "no main()"'
     else:
         short, longs, opts, defaults = tr_options(main)
         exits = tr_exits(main)
+        shape = tr_shape(main)
     power, cc = tr_power(names, repo)
     import pyipmi.interfaces as I
     ifaces = [q(c.NAME) for c in I.INTERFACES]
@@ -569,7 +622,9 @@ def generate(repo):
            'Definition option_table : list optbinding := [\n  %s].' % ';\n  '.join(opts), '',
            'Definition option_defaults : list (string * optdefault) := [\n  %s].' % ';\n  '.join(defaults), '',
            '(* except-clauses around cmd(ipmi, args) *)',
-           'Definition exit_table : list exit_entry := [\n  %s].' % ';\n  '.join(exits), '',
+           'Definition exit_table : list exit_entry := [\n  %s].' % ';\n  '.join(exits),
+           '(* ipmi.open() inside that try / ipmi.close() in its finally *)',
+           'Definition run_shape : run_shape_t := %s.' % shape, '',
            "(* 'chassis power <x>' -> Chassis.<method> -> chassis_control(<code>) *)",
            'Definition power_table : list (string * power_entry) := [\n  %s].' % ';\n  '.join(power),
            'Definition chassis_control_req : chassis_control_shape := %s.' % cc, '',
